@@ -220,6 +220,8 @@ impl WebSocketClient {
             .notify_tx
             .lock()
             .expect("repe websocket notify_tx mutex poisoned");
+        #[cfg(feature = "verif-hooks")]
+        crate::verif::ev("\"ev\":\"ns_sub_begin\"".to_string());
         if let Some(existing) = slot.as_ref()
             && !existing.is_closed()
         {
